@@ -871,8 +871,9 @@ def est_tail(repo: Repo) -> List[Ob]:
                     if isinstance(x, ast.expr) and pred(x):
                         return True
                     p_ = parents.get(id(x))
-                    if isinstance(p_, ast.Assign) and len(p_.targets) == 1 and isinstance(p_.targets[0], ast.Name) and defs.get(p_.targets[0].id) is p_.value:
-                        # follow the single use sites of the name
+                    if isinstance(p_, ast.Assign) and len(p_.targets) == 1 and isinstance(p_.targets[0], ast.Name) and p_.value is x:
+                        # follow the use sites of the name (a name bound in both level branches – `tail = …` – shares its uses: the predicate has
+                        # to hold at every one of them)
                         uses = [u for u in ast.walk(fn) if isinstance(u, ast.Name) and u.id == p_.targets[0].id and isinstance(u.ctx, ast.Load)]
                         return bool(uses) and all(wrapped(u, pred) for u in uses)
                     if isinstance(p_, (ast.stmt, ast.comprehension)) or p_ is None:
@@ -956,8 +957,12 @@ def label_exact(repo: Repo) -> List[Ob]:
         bad_site = None
         sites = 0
         for c in walk_no_nested(fi.node):
-            if isinstance(c, ast.Call) and call_np(c) in ("isclose", "allclose") and len(c.args) >= 2 and any("state" in src(a) for a in c.args[:2]):
-                other = [a for a in c.args[:2] if "state" not in src(a)]
+            if isinstance(c, ast.Call) and call_np(c) in ("isclose", "allclose") and len(c.args) >= 2:
+                # operands are read through once-bound locals (`amplitudes = jnp.abs(self.state[:, 0])` … isclose(amplitudes[k], 1.0))
+                xargs = [expand_ast(fi.node, a, 4) for a in c.args[:2]]
+                if not any("state" in src(a) for a in xargs):
+                    continue
+                other = [a for a in xargs if "state" not in src(a)]
                 if not other:
                     continue
                 sites += 1
@@ -965,7 +970,8 @@ def label_exact(repo: Repo) -> List[Ob]:
                 scalar = isinstance(o, ast.Constant) or (isinstance(o, ast.UnaryOp) and isinstance(o.operand, ast.Constant)) \
                     or (isinstance(o, ast.Call) and isinstance(o.func, ast.Name) and o.func.id in ("float", "int", "complex"))
                 # purity tests `isclose(purity, 1)` are not about self.state: only calls whose operand is the stored ket count
-                if scalar and any(isinstance(x, ast.Attribute) and x.attr == "state" and src(x.value) == "self" for a in c.args[:2] for x in ast.walk(a)):
+                is_purity = any(is_trace_like(x) for a in xargs for x in ast.walk(a))
+                if scalar and not is_purity and any(isinstance(x, ast.Attribute) and x.attr == "state" and src(x.value) == "self" for a in xargs for x in ast.walk(a)):
                     bad_site = c
             if isinstance(c, ast.Compare) and len(c.ops) == 1 and isinstance(c.ops[0], (ast.Lt, ast.LtE)) and any(
                     isinstance(x, ast.Attribute) and x.attr == "state" and src(x.value) == "self" for x in ast.walk(c.left)) and "1" in src(c.left) and is_abs_like(c.left):
@@ -976,6 +982,11 @@ def label_exact(repo: Repo) -> List[Ob]:
                         "so a weakly excited state is replaced by a label and results depend on the contraction setting")) if bad_site is not None else
          obs.append(ok("LABEL-EXACT", fi, "label-criterion", P, lab[0], "a ket becomes a label only through an exact entry test or a comparison with the full basis vector")))
     return obs
+
+
+def is_trace_like(x: ast.AST) -> bool:
+    from ..domains import is_trace
+    return is_trace(x) is not None
 
 
 def is_abs_like(e: ast.AST) -> bool:
